@@ -1,8 +1,124 @@
-/- line-protocol engine `seq` (stub: answers bad-op until the engine is built) -/
+/- line-protocol engine `seq` (C15): `seq prog <node> ; <node> ; …`
+   A program is a list of nodes in SSA form; a node is `<op> <args…>`, sequence arguments are the indices of
+   earlier nodes, integer arguments are decimal literals.  The answer is the canonical dump of every node,
+   joined by ` | ` (`(seq …)`, `(lazyseq <variant> …)`, `(int S n)`, `(bool b)`, `ERR:<msg>`, `PANIC:<msg>`). -/
+import XrayModel.Seq
+open XrayModel.Seq
 namespace XrayDriver
 
+def seqShowInt (v : Int) : String :=
+  if inI64 v then s!"(int S {v})" else s!"(int L {v})"
+
+mutual
+def seqShowVal : Val → String
+  | .int v => seqShowInt v
+  | .tup vs => "(struct" ++ seqShowVals vs ++ ")"
+def seqShowVals : List Val → String
+  | [] => ""
+  | v :: vs => " " ++ seqShowVal v ++ seqShowVals vs
+end
+
+def seqShowRep : Rep → String
+  | .empty => "(seq)"
+  | .array xs => "(seq" ++ seqShowVals xs ++ ")"
+  | .range a b c => s!"(lazyseq range {a} {b} {c})"
+  | .map .. => "(lazyseq map)"
+  | .mapGet .. => "(lazyseq map)"
+  | .zip .. => "(lazyseq zip)"
+  | .chain .. => "(lazyseq chain)"
+  | .slice .. => "(lazyseq slice)"
+  | .count => "(lazyseq count)"
+
+def seqShowV : V → String
+  | .seq r => seqShowRep r
+  | .val v => seqShowVal v
+  | .bool b => s!"(bool {b})"
+  | .opt none => "(none)"
+  | .opt (some v) => "(some " ++ seqShowVal v ++ ")"
+  | .err m => "ERR:" ++ m
+  | .panic m => "PANIC:" ++ m
+
+/-- the arguments of a native are evaluated left to right with `xraise!`: the first error value is returned -/
+def seq1 (env : Array V) (i : String) (k : Rep → V) : V :=
+  match i.toNat? with
+  | none => .panic "bad-ref"
+  | some i => match env[i]? with
+    | some (.seq r) => k r
+    | some (.err m) => .err m
+    | some (.panic m) => .panic m
+    | _ => .panic "bad-ref"
+
+def seqInts (xs : List String) : Option (List Int) := xs.mapM String.toInt?
+
+/-- `zip(a0, a1, …)`: each argument is evaluated in turn; an `Empty` one returns before the rest is evaluated -/
+def seqZip (env : Array V) : List String → List Rep → V
+  | [], acc => .seq (.zip acc.reverse)
+  | i :: is, acc => seq1 env i fun r => if r.isEmpty then .seq .empty else seqZip env is (r :: acc)
+
+def seqNode (env : Array V) (op : String) (args : List String) : V :=
+  match op, args with
+  | "arr", xs => (match seqInts xs with
+      | some vs => .seq (Rep.mkArray (vs.map Val.int))
+      | none => .panic "bad-op")
+  | "range", xs => (match seqInts xs with
+      | some vs => rangeB vs
+      | none => .panic "bad-op")
+  | "count", [] => .seq .count
+  | "count2", [s, o] => (match seqInts [s, o] with
+      | some [s, o] => .seq (count2 s o)
+      | _ => .panic "bad-op")
+  | "add", [i, j] => seq1 env i fun a => seq1 env j fun b => addB a b
+  | "toarr", [i] => seq1 env i toArrayB
+  | "len", [i] => seq1 env i lenB
+  | "isinf", [i] => seq1 env i isInfiniteB
+  | "rev", [i] => seq1 env i reverseB
+  | "rep", [i] => seq1 env i repeatB
+  | "zip", is => seqZip env is []
+  | f, i :: xs =>
+    (match seqInts xs with
+     | none => .panic "bad-op"
+     | some ns => seq1 env i fun r =>
+       match f, ns with
+       | "take", [n] => takeB r n
+       | "skip", [n] => skipB r n
+       | "get", [n] => getB r n
+       | "push", [x] => pushB r (.int x)
+       | "rpush", [x] => rpushB r (.int x)
+       | "insert", [n, x] => insertB r n (.int x)
+       | "set", [n, x] => setB r n (.int x)
+       | "pop", [n] => popB r n
+       | "swap", [n, m] => swapB r n m
+       | "map", [a, b] => mapB r (.affine a b)
+       | "enum", [s, o] => enumerateB r s o
+       | "unzip", [k] => unzipB r k.toNat
+       | "repn", [n] => repeatNB r n
+       | "tw", [c, fuel] => takeWhileLtB r c fuel.toNat
+       | "su", [c, fuel] => skipUntilLtB r c fuel.toNat
+       | _, _ => .panic "bad-op")
+  | _, _ => .panic "bad-op"
+
+def seqSplitNodes : List String → List String → List (List String) → List (List String)
+  | [], cur, acc => (if cur.isEmpty then acc else cur.reverse :: acc).reverse
+  | ";" :: ts, cur, acc => seqSplitNodes ts [] (cur.reverse :: acc)
+  | t :: ts, cur, acc => seqSplitNodes ts (t :: cur) acc
+
+def seqRun : List (List String) → Array V → Bool → List String → List String
+  | [], _, _, out => out.reverse
+  | n :: ns, env, dead, out =>
+    if dead then seqRun ns (env.push (.panic "dead")) true ("PANIC:dead" :: out) else
+    match n with
+    | [] => seqRun ns (env.push (.panic "bad-op")) dead ("bad-op" :: out)
+    | op :: args =>
+      let v := seqNode env op args
+      let isPanic := match v with | .panic _ => true | _ => false
+      seqRun ns (env.push v) isPanic (seqShowV v :: out)
+
 def seqEngine (f : String) (args : List String) : String :=
-  match f, args with
-  | _, _ => "bad-op"
+  match f with
+  | "prog" =>
+    let outs := seqRun (seqSplitNodes args [] []) #[] false []
+    if outs.any (· == "bad-op") || outs.any (· == "PANIC:bad-op") || outs.any (· == "PANIC:bad-ref") then "bad-op"
+    else String.intercalate " | " outs
+  | _ => "bad-op"
 
 end XrayDriver
